@@ -73,6 +73,23 @@ def oracle(chk, good):
                     break
     chk.stages['c12-oracle'] = dict(cases=n)
 
+def probes():
+    """valid structures the random families rarely produce: arcs with both ends on the ground plane (half loops), wire ends a
+    rounding error below / above the plane, a half loop with a wire leaving one of its feet"""
+    import gen
+    out = []
+    def case(wires, fam):
+        out.append(dict(id=10 ** 6 + len(out), seed=0, must_accept=True,
+                        spec=dict(f=30.0, wires=wires, media=[], family=fam, tagmode='none', sources=[], loads=[])))
+    for n in (4, 8, 9):
+        case([dict(type='arc', nseg=n, radius=1.0, ang1=0.0, ang2=180.0, r=0.001, tag=None)], 'probe-halfloop')
+    case([dict(type='arc', nseg=6, radius=1.0, ang1=0.0, ang2=180.0, r=0.001, tag=None), gen.wire(4, [1.0, 0.0, 0.0], [1.0, 1.5, 1.0], 0.001)], 'probe-halfloop-wire')
+    case([dict(type='arc', nseg=6, radius=1.0, ang1=0.0, ang2=90.0, r=0.001, tag=None), gen.wire(4, [0.0, 0.0, 1.0], [0.0, 0.0, 0.0], 0.001)], 'probe-quarterloop-down')
+    for z in (-5.6e-17, -2.8e-17, -1e-9, 1e-9, 0.0):
+        case([gen.wire(5, [0.0, 0.0, z], [0.0, 0.0, 2.0], 0.001)], 'probe-foot-rounding')
+        case([gen.wire(5, [0.3, 0.0, 2.0], [0.3, 0.0, z], 0.001), gen.wire(4, [0.3, 0.0, 2.0], [2.0, 0.5, 2.0], 0.001)], 'probe-invl-rounding')
+    return out
+
 def run(tier, seed):
     chk = Check('C12', tier, seed)
     chk.rule = ('random wire graphs (2-6 nodes, up to 6 wires in random order and orientation, 1-4 segments, junctions of up to 5 ends, '
@@ -83,12 +100,17 @@ def run(tier, seed):
                        'oracle re-derives them by an independent clustering of the end points']
     standard_front(chk, 'Props/C12.v', extra_vo=('Model/Topology.v', 'Proofs/TopologyP.v', 'Corr/TopoDriver.v'))
     rng = random.Random(seed)
-    good, errs = stage_topo.run_stage(chk, rng, 96 if tier == 'quick' else 4800)
+    pr = probes()
+    good, errs = stage_topo.run_stage(chk, rng, 0, cases=pr + stage_topo.gen_cases(rng, 96 if tier == 'quick' else 4800))
+    must = {c['id'] for c in pr}
     for r in good:
         chk.add_case(json.dumps(r['spec'], sort_keys=True), len(r['obs']['geos']) > 1,
                      sample=dict(family=r['spec']['family'], objects=len(r['obs']['geos']), pulses=len(r['obs']['pulses'])))
     for r in errs:
         if r['error']['exception'] == 'ValueError':
+            if r['id'] in must:
+                chk.violation(dict(stage='c12-oracle', what='valid structure rejected'),
+                              'a valid structure (%s) is rejected: %s' % (r['spec']['family'], r['error']['message'][:200]), r['spec'])
             continue        # documented rejection of the input (both ends grounded, below ground, ...)
         report_error(chk, 'topo', r)
     oracle(chk, good)
